@@ -80,6 +80,7 @@ static inline int fiber_bounded_channel_send(fiber_bounded_channel_t* channel,
         atomic_compare_exchange_weak_explicit(&channel->high, &high, high + 1,
                                               memory_order_release,
                                               memory_order_relaxed)) {
+      FIBER_VERIF_POINT(FV_RB_PUSH_MID, channel, index);
       channel->buffer[index] = message;
       if (channel->ready_signal) {
         return fiber_signal_raise(channel->ready_signal);
